@@ -251,7 +251,7 @@ func runScenario(sc Scenario) {
 	} else {
 		e.rec.Emit("Blocked %s", strings.Join(blocked, ","))
 	}
-	if len(blocked) == 0 || !contains(blocked, "Run_0") {
+	if e.rec.WaitFor("Callback some", 0) {
 		// GetChildStates may call the callback if no config was ever stored; only safe after boot
 		st := r.GetChildStates()
 		ks := make([]string, 0, len(st))
